@@ -355,6 +355,28 @@ type worker struct {
 	shapes  map[string]bool
 	classes map[string]int64
 	seen    map[string]bool
+	sparse  bool // big-blob pass: truncation points only near primitive / prefix boundaries and every 4096th byte
+}
+
+// nearBoundary: t within 16 bytes of a primitive start/end or of the end of a length prefix, or a multiple of 4096.
+func nearBoundary(t int, seq []val, ends []int) bool {
+	if t%4096 == 0 {
+		return true
+	}
+	start := 0
+	for i, e := range ends {
+		marks := []int{start, e}
+		if seq[i].k == kVarBytes || seq[i].k == kString {
+			marks = append(marks, start+varUintLen(uint64(len(seq[i].b))))
+		}
+		for _, m := range marks {
+			if d := t - m; d >= -16 && d <= 16 {
+				return true
+			}
+		}
+		start = e
+	}
+	return false
 }
 
 func (w *worker) viol(key string, seq []val, extra map[string]any) {
@@ -428,6 +450,9 @@ func (w *worker) checkSeq(seq []val) {
 
 	// (2) full decode, (3) every truncation point (t == len(buf) is the full decode)
 	for t := len(buf); t >= 0; t-- {
+		if w.sparse && !nearBoundary(t, seq, ends) {
+			continue
+		}
 		in := buf[:t:t]
 		w.truncs++
 		// zero-copy
@@ -487,7 +512,9 @@ func (w *worker) checkSeq(seq []val) {
 		}
 	}
 	w.classes["roundtrip_ok"]++
-	w.classes["trunc_rejected"] += int64(len(buf))
+	if !w.sparse {
+		w.classes["trunc_rejected"] += int64(len(buf))
+	}
 
 	// (4) length-prefix splices on every var-bytes / string position
 	for j, v := range seq {
@@ -616,7 +643,7 @@ func (w *worker) enumerate(alpha []val, first, d int) {
 	rec(1)
 }
 
-func runDepth(r *ev.Run, alpha []val, d int, label string, tot *totals) {
+func runDepth(r *ev.Run, alpha []val, d int, label string, tot *totals, sparse ...bool) {
 	nw := runtime.NumCPU()
 	jobs := make(chan int, len(alpha))
 	for i := range alpha {
@@ -629,7 +656,7 @@ func runDepth(r *ev.Run, alpha []val, d int, label string, tot *totals) {
 		wg.Add(1)
 		go func() {
 			defer wg.Done()
-			w := &worker{r: r, shapes: map[string]bool{}, classes: map[string]int64{}}
+			w := &worker{r: r, shapes: map[string]bool{}, classes: map[string]int64{}, sparse: len(sparse) > 0 && sparse[0]}
 			for first := range jobs {
 				if r.Expired() {
 					r.Capped(label)
@@ -1047,10 +1074,10 @@ func main() {
 			runDepth(r, full, d, fmt.Sprintf("depth=%d", d), tot)
 		}
 		big := alphabet([]int{0, 1, 0xFC, 0xFD, 0x100, 0xFFFF, 0x10000}, false)
-		runDepth(r, big, 2, "big-blobs depth=2", tot)
+		runDepth(r, big, 2, "big-blobs depth=2", tot, true)
 		red := alphabet([]int{0, 0xFC, 0xFD}, true)
 		runDepth(r, red, 4, "reduced depth=4", tot)
-		rule = fmt.Sprintf("all sequences of 1..3 primitives over %d boundary values; pairs over %d values incl. 0xFFFF/0x10000-byte strings; all 4-sequences over a reduced %d-value alphabet",
+		rule = fmt.Sprintf("all sequences of 1..3 primitives over %d boundary values; pairs over %d values incl. 0xFFFF/0x10000-byte strings (truncation points for this pass: within 16 bytes of every primitive/prefix boundary and every 4096th byte); all 4-sequences over a reduced %d-value alphabet",
 			len(full), len(big), len(red))
 	}
 	for s := range tot.shapes {
